@@ -111,18 +111,6 @@ Definition assign_fl (mv : bool) (L : list param) (same : bool) (ms : mem) (fls 
 Definition has_span (L : list param) : bool := existsb (fun p => negb (is_plain p)) L.
 Definition fixed_or_plain (L : list param) : bool := negb (has_varying L).
 
-(* AllocatorAwarePointer copy assignment: (bid, units, aid, fresh block?, events, next id) *)
-Definition aap_copy (pocca ae : bool) (L : list param) (dbid : option nat) (du daid su said : Z) (nb : nat)
-  : option nat * Z * Z * bool * list ev * nat :=
-  let dealloc := fun a => match dbid with Some b => [EDealloc a (SA L) du b] | None => [] end in
-  if pocca && negb ae && negb (daid =? said) then
-    (Some nb, su, said, true, dealloc daid ++ [EAlloc said (SA L) su nb], S nb)
-  else
-    let a := if pocca then said else daid in
-    if (du <? su) || (match dbid with None => true | Some _ => false end) then
-      (Some nb, su, a, true, dealloc a ++ [EAlloc a (SA L) su nb], S nb)
-    else (dbid, du, a, false, [], nb).
-
 Definition elem_copy_assign (pocca ae : bool) (L : list param) (d src : elem) (junk : mem) (nb : nat)
   : elem * list ev * nat :=
   (* field-wise only into an element that has storage (a moved-from one has none) *)
@@ -132,13 +120,14 @@ Definition elem_copy_assign (pocca ae : bool) (L : list param) (d src : elem) (j
     ({| e_bid := e_bid d; e_units := e_units d; e_aid := if pocca then e_aid src else e_aid d;
         e_mem := md; e_fl := e_fl d |}, evs, nb)
   else
+    (* the new block is allocated first (from the allocator the element will have afterwards) *)
+    let a := if pocca then e_aid src else e_aid d in
+    let ea := [EAlloc a (SA L) (e_units src) nb] in
     let '(d1, e1) := elem_destruct L d in
-    let '(bid, u, a, fresh, e2, nb1) := aap_copy pocca ae L (e_bid d1) (e_units d1) (e_aid d1)
-                                                 (e_units src) (e_aid src) nb in
-    let base := if fresh then junk else e_mem d1 in
     let n := ref_bytes L (e_fl src) in
-    let '(_, md, fld, e3) := store_and_load false L (e_mem src) (e_fl src) (bidn (e_bid src)) n base (bidn bid) in
-    ({| e_bid := bid; e_units := u; e_aid := a; e_mem := md; e_fl := fld |}, e1 ++ e2 ++ e3, nb1).
+    let '(_, md, fld, e3) := store_and_load false L (e_mem src) (e_fl src) (bidn (e_bid src)) n junk nb in
+    ({| e_bid := Some nb; e_units := e_units src; e_aid := a; e_mem := md; e_fl := fld |},
+     ea ++ e1 ++ elem_dealloc L d1 ++ e3, S nb).
 
 (* ---------- move assignment (element.hpp:111-119, 335-378) ---------- *)
 Definition elem_steal (pocma : bool) (L : list param) (d src : elem) : elem * elem * list ev :=
